@@ -9,6 +9,7 @@ from fractions import Fraction
 
 from .. import core
 from .. import translate_c14
+from .c14_reach import Reach
 
 PID = 'C14'
 DRV = 'drv_c14'
@@ -40,10 +41,27 @@ FLOOR_K = 400          # abundance tolerance: FLOOR_K * 1e-8 un-normalised (spli
 NM_DEFAULT = None
 
 
+class _Api:
+    """the functions under test, each taken from the module that DEFINES it (not from a package that re-exports it)"""
+
+    def __init__(self):
+        import importlib
+        iso = importlib.import_module('peptacular.isotope')
+        mc = importlib.import_module('peptacular.mass_calc')
+        self.isotopic_distribution = iso.isotopic_distribution
+        self.estimate_isotopic_distribution = iso.estimate_isotopic_distribution
+        self.merge_isotopic_distributions = iso.merge_isotopic_distributions
+        self.chem_mass = mc.chem_mass
+
+
+_API = []
+
+
 def _pt():
-    import peptacular as pt
-    from peptacular import isotope, constants
-    return pt, isotope, constants
+    import importlib
+    if not _API:
+        _API.append(_Api())
+    return _API[0], importlib.import_module('peptacular.isotope'), importlib.import_module('peptacular.constants')
 
 
 # ----------------------------------------------------------------------------- wire helpers
@@ -363,11 +381,11 @@ def gen_sequence(rng, constants):
 FRESH_SNIPPET = """
 import json, sys, warnings
 warnings.simplefilter('ignore')
-import peptacular as pt
+from peptacular.isotope import isotopic_distribution
 calls = json.load(sys.stdin)
 out = []
 for f, o in calls:
-    out.append([[float(m), float(a)] for m, a in pt.isotopic_distribution(dict(f), **o)])
+    out.append([[float(m), float(a)] for m, a in isotopic_distribution(dict(f), **o)])
 print(json.dumps(out))
 """
 
@@ -442,11 +460,38 @@ def run(chk):
         chk.notes.append(f'time {name}: {now - _t[0]:.1f}s')
         _t[0] = now
 
+    # ---------------------------------------------------------------- line reach of the modelled functions (sys.monitoring)
+    reach = Reach([isotope.isotopic_distribution, isotope.merge_isotopic_distributions, isotope.estimate_isotopic_distribution,
+                   isotope._convolve_distributions, isotope._calculate_elemental_distribution, isotope._fix_chemical_formula,
+                   isotope._scale_isotope_abundances],
+                  outside={
+                      'isotopic_distribution': {
+                          'warnings.warn(': 'the warning text is not modelled (warnings are silenced by the harness)',
+                          'f"The chemical formula has a mass difference of {delta_mass} Da. This is likely due to floating point errors. The mass will be corrected for this.")':
+                              'argument of warnings.warn',
+                      },
+                      '_fix_chemical_formula': {
+                          "if 'H' not in total_atoms:": 'add_hydrogens=True is never used by isotopic_distribution (it passes False); not modelled',
+                          "total_atoms['H'] = 0": 'add_hydrogens=True branch, not modelled',
+                          "total_atoms['H'] += int((starting_mass - chem_mass(total_atoms)) / constants.ISOTOPIC_ATOMIC_MASSES['H'])":
+                              'add_hydrogens=True branch, not modelled',
+                      }})
+    reach.__enter__()
     # ---------------------------------------------------------------- translate (regenerated from the current tree)
     changed, path = translate_c14.translate(core.REPO, core.LEAN)
     if changed:
         chk.generated_changed.append(os.path.relpath(path, core.VERIF))
     _, table, parts = translate_c14.render(core.REPO)
+    if translate_c14.LAST_MODE['mode'] != 'source':
+        # the source could not be read in the expected shape: the generated table is the library's own runtime value (by_value),
+        # i.e. no longer an independent reading of data/chem.txt - reported as a correspondence break, never as a crash
+        chk.notes.append({'generated_table': 'by_value', 'why': translate_c14.LAST_MODE['why']})
+        chk.disagreements.append({'op': 'translate_c14', 'line': 'data/chem.txt + constants.py -> Generated/IsotopesC14.lean',
+                                  'impl': 'source not readable in the expected shape: ' + translate_c14.LAST_MODE['why'][:300],
+                                  'model': 'emitted by value from peptacular.constants of the tree under test'})
+        chk.corr.setdefault('translate_c14', {'evaluations': 1, 'disagreements': 1, 'samples': []})
+    else:
+        chk.notes.append({'generated_table': 'source (exact decimal texts of data/chem.txt, constants.py)'})
     ok = chk.lean_build(['PeptVerif.Props.C14'], DRV)
     chk.trusted += [
         'translate_c14.py: exact decimal texts of data/chem.txt -> Generated/IsotopesC14.lean; its table is compared on every run '
@@ -555,7 +600,7 @@ def run(chk):
     tick('round/conv/elem')
     # ---------------------------------------------------------------- (d) isotopic_distribution
     cap = 600 if quick else 1500
-    n_iso = 150 if quick else 700
+    n_iso = 120 if quick else 700
     cases = list(corpus)
     for i in range(n_iso):
         o = gen_opts(rng, constants)
@@ -894,7 +939,7 @@ def run(chk):
     chk.notes.append('slowest oracle cases: ' + '; '.join(f'{t:.1f}s {c}' for t, c in slow[:3]))
     tick('clauses oracle')
     # ---------------------------------------------------------------- call sequences on one composition (state must not leak)
-    seqs = [gen_sequence(rng, constants) for _ in range(6 if quick else 40)]
+    seqs = [gen_sequence(rng, constants) for _ in range(5 if quick else 40)]
     # the witness of the seeded cache regression: pruned call, then the plain call
     o_w = dict(max_isotopes=None, min_abundance_threshold=1e-3, distribution_resolution=5, use_neutron_count=False,
                distribution_abundance=1.0, is_abundance_sum=False, output_masses_for_neutron_offset=False, neutron_mass=constants.NEUTRON_MASS)
@@ -989,6 +1034,8 @@ def run(chk):
     chk.oracle('estimate_is_distribution_of_estimate_comp', est, o_est, key_fn=lambda c: repr(c))
 
     tick('merge/estimate oracles')
+    reach.__exit__()
+    chk.notes.append({'reach_of_modelled_functions': reach.report()})
     if not quick:
         chk.leanchecker(['PeptVerif.Props.C14', 'PeptVerif.Lemmas.Isotope', 'PeptVerif.Lemmas.IsotopeMultinomial', 'PeptVerif.Model.Isotope', 'PeptVerif.Generated.IsotopesC14'])
     return chk.finish(classify)
